@@ -7,27 +7,6 @@ From Mamba Require Import Canon.AutBase Canon.Aut Canon.Group Canon.Orbit Canon.
 Import ListNotations.
 Open Scope nat_scope.
 
-(* concrete inputs of the driver: adjacency matrix and class index of every vertex *)
-Definition adj_of (m : list (list bool)) (i j : nat) : bool := nth j (nth i m []) false.
-Definition cls_of (l : list nat) (v : nat) : nat := nth v l 0.
-
-(* the returned array has length n, is a forest, and its classes are the orbits of the group
-   generated by gens (both sides as vectors "least member of my class") *)
-Definition orbits_match (n : nat) (gens : list perm) (ds : dset) : bool :=
-  (length ds =? n) &&
-  match labels_of_ds ds, orbits_of n gens with
-  | Some a, Some b => if pdec a b then true else false
-  | _, _ => false
-  end.
-
-(* full certificate (n small enough for brute-force Aut) *)
-Definition check_full (fuel cap n : nat) adj cls (gens : list perm) (ds : dset) : bool :=
-  gens_generate_aut_b fuel cap n adj cls gens && orbits_match n gens ds.
-
-(* without brute force: generators are automorphisms, array = orbits of the generators *)
-Definition check_partial (n : nat) adj cls (gens : list perm) (ds : dset) : bool :=
-  forallb (is_automorphism n adj cls) gens && orbits_match n gens ds.
-
 Lemma orbits_match_spec n gens ds : Forall (is_perm n) gens ->
   (orbits_match n gens ds = true <->
    length ds = n /\ WF ds /\ forall x y, x < n -> y < n -> (same ds x y <-> orbit n gens x y)).
